@@ -136,7 +136,7 @@ def liveCacheOps (s : St) (snap : Entries) : Ops CacheIter :=
 
 def showStep {σ : Type} (O : Ops σ) (r : σ × Bool) (strip : Bool) : String :=
   let k := if strip then stripKey (O.key r.1) else O.key r.1
-  (if r.2 then "t " else "f ") ++ Hex.showHex k ++ " " ++ Hex.showHex (O.value r.1)
+  if r.2 then "t " ++ Hex.showHex k ++ " " ++ Hex.showHex (O.value r.1) else "f"
 
 def stripOps (O : Ops CacheIter) : Ops CacheIter := { O with key := fun s => stripKey (O.key s) }
 
